@@ -47,9 +47,10 @@ type Cfg struct {
 	Compiled   bool
 	Versioning bool
 	NoRoute    bool
+	Root       int // 0: GET "/" in the main tree; 1: GET "" in the main tree (pattern "" -> _unmatched); 2: GET "" in version v1 only
 }
 
-func (c Cfg) key() string { return fmt.Sprintf("%v%v%v%v", c.Obs, c.Compiled, c.Versioning, c.NoRoute) }
+func (c Cfg) key() string { return fmt.Sprintf("%v%v%v%v%d", c.Obs, c.Compiled, c.Versioning, c.NoRoute, c.Root) }
 
 type routeDef struct {
 	method, pattern, ver string
@@ -57,6 +58,7 @@ type routeDef struct {
 	kind                 string // static | param | wild
 	chain                string // "" | abort | panic
 	intParam             string // name of a parameter constrained to digits
+	root                 int    // root routes: registered only when Cfg.Root == root-1 (0 = always)
 }
 
 const (
@@ -65,7 +67,12 @@ const (
 )
 
 var table = []routeDef{
-	{method: "GET", pattern: "/", hid: 1, kind: "static"},
+	{method: "GET", pattern: "/", hid: 1, kind: "static", root: 1},
+	{method: "GET", pattern: "", hid: 15, kind: "emptyroot", root: 2},
+	{method: "GET", pattern: "", ver: "v1", hid: 29, kind: "emptyroot", root: 3},
+	// a static path the route compiler treats as a wildcard (last segment ends in *) and therefore skips,
+	// while the per-tree static table has it: the only way into serveStaticRoute
+	{method: "GET", pattern: "/star*", hid: 16, kind: "treestatic"},
 	{method: "GET", pattern: "/s/a", hid: 2, kind: "static"},
 	{method: "GET", pattern: "/s/b/c", hid: 3, kind: "static"},
 	{method: "GET", pattern: "/d/:id", hid: 4, kind: "param"},
@@ -96,11 +103,23 @@ const defaultVersion = "v1"
 const sunsetVersion = "v0"
 const exclPrefix = "/x/"
 
+// active reports whether the route is registered under the configuration.
+func active(d routeDef, c Cfg) bool {
+	if d.ver != "" && !c.Versioning {
+		return false
+	}
+	return d.root == 0 || d.root-1 == c.Root
+}
+
 func patterns(c Cfg) []string {
 	seen := map[string]bool{}
 	var out []string
+	if c.Root == 1 {
+		seen["/"] = true // the route compiler normalises the empty pattern to "/"
+		out = append(out, "/")
+	}
 	for _, d := range table {
-		if d.ver != "" && !c.Versioning {
+		if !active(d, c) {
 			continue
 		}
 		if !seen[d.pattern] {
@@ -114,7 +133,7 @@ func patterns(c Cfg) []string {
 
 // matchTable is the reference matcher for THIS table (static > param > wildcard per segment; the
 // table has no two routes that need backtracking). It predicts the lookup facts shipped to the model.
-func matchTable(method, path, ver string) (routeDef, bool) {
+func matchTable(c Cfg, method, path, ver string) (routeDef, bool) {
 	segs := func(s string) []string {
 		s = strings.Trim(s, "/")
 		if s == "" {
@@ -128,7 +147,7 @@ func matchTable(method, path, ver string) (routeDef, bool) {
 	}
 	best, bestScore := routeDef{}, -1
 	for _, d := range table {
-		if d.method != method || d.ver != ver {
+		if d.method != method || d.ver != ver || !active(d, c) {
 			continue
 		}
 		rs := segs(d.pattern)
@@ -174,9 +193,9 @@ func matchTable(method, path, ver string) (routeDef, bool) {
 	return best, bestScore >= 0
 }
 
-func hasTree(method, ver string, versioning bool) bool {
+func hasTree(c Cfg, method, ver string) bool {
 	for _, d := range table {
-		if d.method == method && d.ver == ver && (ver == "" || versioning) {
+		if d.method == method && d.ver == ver && active(d, c) {
 			return true
 		}
 	}
@@ -280,6 +299,9 @@ func abortMW(c *router.Context) {
 
 func register(r *router.Router, c Cfg) {
 	for _, d := range table {
+		if !active(d, c) {
+			continue
+		}
 		var hs []router.HandlerFunc
 		switch d.chain {
 		case "abort":
@@ -289,9 +311,6 @@ func register(r *router.Router, c Cfg) {
 		}
 		hs = append(hs, handler(d.hid))
 		if d.ver != "" {
-			if !c.Versioning {
-				continue
-			}
 			var vr *router.VersionRouter
 			if d.ver == sunsetVersion {
 				vr = r.Version(d.ver, version.Deprecated(), version.Sunset(time.Date(2001, 1, 1, 0, 0, 0, 0, time.UTC)))
@@ -429,31 +448,35 @@ func detect(q Req) string {
 func predict(c Cfg, q Req) facts {
 	f := facts{obs: c.Obs, live: c.Obs && !strings.HasPrefix(q.Path, exclPrefix), useCompiled: c.Compiled, hasStatic: c.Compiled,
 		versionEngine: c.Versioning, noRoute: c.NoRoute, path: q.Path}
-	d, ok := matchTable(q.Method, q.Path, "")
+	d, ok := matchTable(c, q.Method, q.Path, "")
 	rt := route{ok, d.hid, d.pattern}
-	if ok && c.Compiled && d.kind == "static" {
+	switch {
+	case !ok:
+	case c.Compiled && d.kind == "static":
 		f.lookupStatic = rt
-	}
-	if ok && c.Compiled && d.kind == "param" {
+	case c.Compiled && d.kind == "emptyroot":
+		f.lookupStatic = route{true, d.hid, "/"} // CompileRoute normalises "" to "/"
+	case c.Compiled && d.kind == "param":
 		f.matchDynamic = rt
-	}
-	f.tree = hasTree(q.Method, "", false)
-	f.treeCompiled = c.Compiled && f.tree
-	if ok && (!c.Compiled || d.kind == "wild") {
+	case c.Compiled && d.kind == "treestatic":
+		f.treeStatic = rt
+	default:
 		f.treeRoute = rt
 	}
+	f.tree = hasTree(c, q.Method, "")
+	f.treeCompiled = c.Compiled && f.tree
 	if c.Versioning {
 		f.detected = detect(q)
 		f.version = f.detected
 		tv := ""
-		if hasTree(q.Method, f.version, true) {
+		if hasTree(c, q.Method, f.version) {
 			tv = f.version
-		} else if hasTree(q.Method, defaultVersion, true) {
+		} else if hasTree(c, q.Method, defaultVersion) {
 			tv = defaultVersion
 		}
 		f.vcTree = tv != ""
 		if f.vcTree {
-			if vd, vok := matchTable(q.Method, q.Path, tv); vok {
+			if vd, vok := matchTable(c, q.Method, q.Path, tv); vok {
 				if vd.kind == "static" {
 					f.vCache = route{true, vd.hid, vd.pattern}
 				} else {
@@ -464,7 +487,7 @@ func predict(c Cfg, q Req) facts {
 		f.sunset = f.version == sunsetVersion
 	}
 	for _, m := range []string{"GET", "POST", "PUT", "PATCH", "DELETE", "HEAD", "OPTIONS"} {
-		if _, ok := matchTable(m, q.Path, ""); ok {
+		if _, ok := matchTable(c, m, q.Path, ""); ok {
 			f.allowed = true
 		}
 	}
@@ -774,6 +797,8 @@ func classes() []classGen {
 	q := func(class, m, p, ver string) Req { return Req{Method: m, Path: p, Ver: ver, Class: class} }
 	return []classGen{
 		{"main-static", func(r *hx.Rand) Req { return q("main-static", "GET", hx.Pick(r, []string{"/", "/s/a", "/s/b/c"}), verHdr(r)) }},
+		{"root", func(r *hx.Rand) Req { return q("root", hx.Pick(r, []string{"GET", "GET", "POST"}), "/", verHdr(r)) }},
+		{"tree-static", func(r *hx.Rand) Req { return q("tree-static", hx.Pick(r, []string{"GET", "GET", "PUT"}), "/star*", verHdr(r)) }},
 		{"main-param", func(r *hx.Rand) Req {
 			return q("main-param", "GET", hx.Pick(r, []string{"/d/" + v(r), "/d/" + v(r) + "/e/" + v(r), "/c/" + hx.Pick(r, []string{"7", "12", "0"})}), verHdr(r))
 		}},
@@ -805,14 +830,14 @@ func classes() []classGen {
 }
 
 func chainOf(q Req, c Cfg) string {
-	if d, ok := matchTable(q.Method, q.Path, ""); ok {
+	if d, ok := matchTable(c, q.Method, q.Path, ""); ok {
 		return d.chain
 	}
 	return ""
 }
 
 func genCfg(r *hx.Rand) Cfg {
-	return Cfg{Obs: r.Chance(7, 8), Compiled: r.Chance(1, 2), Versioning: r.Chance(2, 3), NoRoute: r.Chance(1, 2)}
+	return Cfg{Obs: r.Chance(7, 8), Compiled: r.Chance(1, 2), Versioning: r.Chance(2, 3), NoRoute: r.Chance(1, 2), Root: hx.Pick(r, []int{0, 0, 1, 2})}
 }
 
 func genReq(r *hx.Rand, c Cfg) Req {
@@ -866,6 +891,10 @@ func count(st *hx.Stats, c Cfg, q Req) bool {
 	st.Count("class:" + q.Class)
 	st.Count("prog:" + q.Prog.Mode)
 	st.Count(fmt.Sprintf("cfg:obs=%v,compiled=%v,versioning=%v,noRoute=%v", c.Obs, c.Compiled, c.Versioning, c.NoRoute))
+	st.Count(fmt.Sprintf("cfg:root=%d", c.Root))
+	if (f.treeRoute.ok && f.treeRoute.pattern == "") || (f.vRoute.ok && f.vRoute.pattern == "") {
+		st.Count("empty-pattern(_unmatched)")
+	}
 	if f.obs && !f.live {
 		st.Count("excluded")
 	}
@@ -932,8 +961,8 @@ func main() {
 			fmt.Fprintln(w, run(fmt.Sprintf("c08-%d-%d", a.Seed, i), cs))
 			i++
 		}
-		for m := 0; m < 16 && i < a.N; m++ {
-			c := Cfg{Obs: m&1 == 0, Compiled: m&2 != 0, Versioning: m&4 != 0, NoRoute: m&8 != 0}
+		for m := 0; m < 48 && i < a.N; m++ {
+			c := Cfg{Obs: m&1 == 0, Compiled: m&2 != 0, Versioning: m&4 != 0, NoRoute: m&8 != 0, Root: m / 16}
 			for _, cl := range classes() {
 				q := cl.gen(r)
 				q.Prog = genProg(r, chainOf(q, c))
